@@ -139,6 +139,11 @@ func (m *Machine) verifyFunction(key string, fc *FuncContract, opts verifyOpts) 
 	m.cur.old = st // requires are evaluated in the entry state
 	if fc != nil && contractMentions(fc, "@in", "@pos") {
 		m.inputState(st)
+		in := Sym("ghost0.in", SBytes)
+		m.cur.inputs = append(m.cur.inputs, app(SBV64, "blen", in), Sym("ghost0.pos", SBV64))
+		for i := 0; i < 40; i++ {
+			m.cur.inputs = append(m.cur.inputs, Select(app(SArr8, "barr", in), BVLitI(int64(i), 64)))
+		}
 	}
 	env := m.baseEnv(c)
 	if fc != nil {
@@ -167,6 +172,9 @@ func inputTerms(m *Machine, st *State, v Value) []Term {
 		if x.Sort.IsBV() || x.Sort.IsFP() || x.Sort == SBool {
 			return []Term{x}
 		}
+		if x.Sort == STime {
+			return []Term{app(SBV64, "t.sec", x), app(SBV64, "t.nsec", x)}
+		}
 	case *SliceV:
 		if x.Obj.Elem == SBV8 {
 			ts := []Term{x.Len}
@@ -186,6 +194,9 @@ func (m *Machine) atReturn(c *Config, fn *ssa.Function, fc *FuncContract, result
 	}
 	env := m.baseEnv(c)
 	m.bindResults(env, fn.Signature, results)
+	m.cur.curResults = results
+	m.regionEnv = env
+	defer func() { m.cur.curResults = nil; m.regionEnv = nil }()
 	for _, e := range fc.Ensures {
 		if opts.onlyProps != nil && !propsIntersect(e.Props, opts.onlyProps) {
 			continue
